@@ -187,4 +187,109 @@ theorem revealAfter_step (H : Hyp a T) (R : Ptr → Rat) {M A : List Word} {Lm L
           omega
       · left; simpa [h] using m3
 
+
+/-- what the back-off buffer after all pointers means for the code that follows (`in.left.full` charging / the
+right-state merge), through `nt_tail` -/
+theorem tail_sem (H : Hyp a T) (R : Ptr → Rat) {M A : List Word} {Lm La : Nat} {cM cA : Chart} {pM pA : Rat}
+    (GM : FragC a T R M Lm cM pM) (GA : FragC a T R A La cA pA) (v : ExtendReturn)
+    (I : InvL a A [] M.reverse cM.right.length La v) :
+    (cA.left.full = true → (v.backIn.take v.nextUse).sum = remaining a R A La M.reverse La ∧
+        StateFor a (A.reverse ++ M.reverse) cA.right) ∧
+    (cA.left.full = false →
+        StateFor a (A.reverse ++ M.reverse) (mergedState cA (M.reverse.take cM.right.length) v) ∧
+        NormS (mergedState cA (M.reverse.take cM.right.length) v) ∧
+        remaining a R A La M.reverse La = 0 ∧ cA.right.length = A.length ∧ La = A.length) := by
+  have sf := GM.right_for
+  have nm := GM.right_norm
+  let st' : StepOut := { rs := { out := { left := cM.left, right := cM.right }, leftDone := false, prob := 0 },
+                         nextUse := v.nextUse, back := v.backIn, exit := false }
+  have IA : InvA a A M.reverse cM.right La st' := invA_of_invL rfl I _ rfl
+  obtain ⟨_, _, t3, t4, t5, t6⟩ := nt_tail H R GA sf nm IA
+  have hlen2 : cA.left.length = La := by simp [LeftSt.length, GA.ptrs]
+  constructor
+  · intro hf
+    have hr : (ntTail cA st').out.right = cA.right := by simp [ntTail, hf, st']
+    have hp : (ntTail cA st').prob = 0 + (v.backIn.take v.nextUse).sum := by simp [ntTail, hf, st']
+    rw [hr] at t3
+    rw [hp] at t5
+    refine ⟨?_, t3⟩
+    have : (0 : Rat) + (v.backIn.take v.nextUse).sum = 0 + remaining a R A La M.reverse La := t5
+    grind
+  · intro hf
+    obtain ⟨h1, h2⟩ := GA.open_ hf
+    have hlt : ¬ (cA.right.length < cA.left.length) := by rw [hlen2]; omega
+    have hw : cM.right.words.take v.nextUse = (M.reverse.take cM.right.length).take v.nextUse := by
+      rw [← sf.words, List.take_take, Nat.min_eq_left I.nu_le]
+    have hr : (ntTail cA st').out.right = mergedState cA (M.reverse.take cM.right.length) v := by
+      simp only [ntTail, hf, hlt, st', mergedState, Bool.false_eq_true, if_false, hw]
+    have hp : (ntTail cA st').prob = 0 := by simp [ntTail, hf, hlt, st']
+    rw [hr] at t3 t4
+    rw [hp] at t5
+    have hrem : remaining a R A La M.reverse La = 0 := by
+      have : (0 : Rat) = 0 + remaining a R A La M.reverse La := t5
+      grind
+    exact ⟨t3, t4, hrem, h2, h1⟩
+
+/-- from the facts a pointer loop establishes to the canonical description of the concatenation -/
+theorem assemble (H : Hyp a T) (R : Ptr → Rat) {M A : List Word} {Lm La : Nat} {cM cA : Chart} {pM pA : Rat}
+    (GM : FragC a T R M Lm cM pM) (GA : FragC a T R A La cA pA) (left' : LeftSt) (v : ExtendReturn) (Lp : Nat) (acc : Rat)
+    (I : InvL a A [] M.reverse cM.right.length La v) (hLp : Lp ≤ La)
+    (hptr : left'.pointers = cM.left.pointers ++ (List.range Lp).map (fun i => pre A i ++ M.reverse))
+    (hxl : ∀ i, i < Lp → T.xl (pre A i ++ M.reverse) = true) (hbound : 0 < Lp → Lp + M.length ≤ a.order - 1)
+    (hLp0 : cM.left.full = true → Lp = 0)
+    (hacc : acc = dsum (openTerm R A [] M.reverse) 0 Lp + dsum (doneTerm a R A [] M.reverse) Lp (La - Lp) +
+        remaining a R A La M.reverse La)
+    (hop : left'.full = false → cM.left.full = false ∧ cA.left.full = false ∧ Lp = La ∧ v.nextUse = M.length)
+    (hfullM : cM.left.full = true → left'.full = true)
+    (hcl : left'.full = true → cM.left.full = false → Closed T (M ++ A) (M.length + Lp)) :
+    ∃ L' right', FragC a T R (M ++ A) L' { left := left', right := right' } (pM + pA + acc) := by
+  have hLa := GA.L_le
+  obtain ⟨tf1, tf2⟩ := tail_sem H R GM GA v I
+  have hX : acc = hSum R A M.reverse Lp - restSum R A Lp + remaining a R A La M.reverse Lp := by
+    rw [hacc, dsum_open_hSum, Rat.add_assoc, dsum_done_remaining R A M.reverse La hLa (La - Lp) Lp rfl hLp]
+  -- the right state of the description
+  have hright : ∃ right', StateFor a (A.reverse ++ M.reverse) right' ∧ NormS right' ∧
+      (cA.left.full = false → right'.length = A.length + v.nextUse) := by
+    by_cases hf : cA.left.full = true
+    · exact ⟨cA.right, (tf1 hf).2, GA.right_norm, fun hc => by rw [hf] at hc; cases hc⟩
+    · have hf' : cA.left.full = false := by simpa using hf
+      obtain ⟨e1, e2, _, e4, _⟩ := tf2 hf'
+      exact ⟨_, e1, e2, fun _ => by show cA.right.length + v.nextUse = _; rw [e4]⟩
+  obtain ⟨right', hr1, hr2, hr3⟩ := hright
+  by_cases hfM : cM.left.full = true
+  · -- the first fragment was complete: same left state
+    have hLp' := hLp0 hfM
+    subst hLp'
+    refine ⟨Lm, right', ⟨by rw [List.reverse_append]; exact hr1, hr2, by simp; have := GM.L_le; omega, GM.L_lt, ?_, ?_, ?_,
+      (fun hc => by rw [hfullM hfM] at hc; cases hc), fun _ => (GM.closed hfM).append H A⟩⟩
+    · show left'.pointers = _
+      rw [hptr, GM.ptrs]
+      simp only [List.range_zero, List.map_nil, List.append_nil]
+      apply List.map_congr_left
+      intro i hi
+      have : i < Lm := by simpa using hi
+      rw [pre_append M A (by have := GM.L_le; omega)]
+    · intro i hi; rw [pre_append M A (by have := GM.L_le; omega)]; exact GM.ptr_xl i hi
+    · rw [hX]
+      simp only [hSum, restSum]
+      have hp0 : pA + remaining a R A La M.reverse 0 = specSeq a M.reverse A := by
+        rw [GA.prob_eq]; unfold remaining
+        simp only [gm1, List.take_zero, List.reverse_nil, List.nil_append, List.drop_zero, restSum]
+        grind
+      rw [GM.prob_eq, restSum_append R M A Lm GM.L_le, List.take_append_of_le_length GM.L_le,
+        List.drop_append_of_le_length GM.L_le, specSeq_append]
+      have : (M.drop Lm).reverse ++ (M.take Lm).reverse = M.reverse := by
+        rw [← List.reverse_append, List.take_append_drop]
+      rw [this, ← hp0]; grind
+  · have hfM' : cM.left.full = false := by simpa using hfM
+    refine ⟨M.length + Lp, right', fragC_build R GM hfM' GA Lp _ _ hLp (by
+        by_cases hpos : 0 < Lp
+        · exact hbound hpos
+        · have : Lp = 0 := by omega
+          rw [this]; have := GM.L_lt; have := (GM.open_ hfM').1; omega) hr1 hr2 hptr hxl (by rw [hX]; grind) ?_ (fun hc => hcl hc hfM')⟩
+    intro hc
+    obtain ⟨_, o2, o3, o4⟩ := hop hc
+    have := (GA.open_ o2).1
+    exact ⟨by omega, by show right'.length = _; rw [hr3 o2, o4]⟩
+
 end KV.Left
